@@ -1104,6 +1104,10 @@ func (r *Run) Teardown() (leaked int) {
 	}
 	r.drainProbes()
 	active.CompareAndSwap(r, nil)
+	// Goroutines that could not be ended keep this Run reachable for the rest
+	// of the process: drop what is large (3 MB of tape buffers per run).
+	r.Sched.rec, r.Ord.rec, r.Clk.rec = nil, nil, nil
+	r.Trace = nil
 	return leaked
 }
 
